@@ -79,6 +79,11 @@ func (t *tr) global(n ast.Node, v *types.Var) string {
 	return name
 }
 
+func (t *tr) isGlobal(id *ast.Ident) bool {
+	v, ok := t.p.info.Uses[id].(*types.Var)
+	return ok && !v.IsField() && v.Parent() == t.p.pkg.Scope()
+}
+
 func (t *tr) declareGlobals() {
 	t.globals = map[string]ltype{}
 	for _, name := range strings.Fields(t.spec.globals) {
@@ -608,6 +613,15 @@ func (t *tr) loopState(from, to token.Pos, nodes ...ast.Node) []stateVar {
 			lt := t.ltypeOf(obj.Type())
 			if lt.c == tBad || lt.c == tTuple || lt.c == tFunc {
 				t.fail(l, "loop state variable %s of type %s", root.Name, obj.Type())
+				continue
+			}
+			if t.isGlobal(root) {
+				if root.Name != t.spec.writes {
+					t.fail(l, "assignment to the package-level variable %s", root.Name)
+					continue
+				}
+				found["g_"+root.Name] = lt
+				poss["g_"+root.Name] = token.NoPos
 				continue
 			}
 			found[t.nm(root)] = lt
@@ -1189,7 +1203,7 @@ func (t *tr) assignElem(lhs ast.Expr, tok token.Token, rhs ast.Expr, pos token.P
 		}
 		id, ok := l.X.(*ast.Ident)
 		v, _ := t.p.info.Uses[id].(*types.Var)
-		if !ok || v == nil || v.Parent() == t.p.pkg.Scope() || tok == token.DEFINE {
+		if !ok || v == nil || (v.Parent() == t.p.pkg.Scope() && v.Name() != t.spec.writes) || tok == token.DEFINE {
 			t.fail(lhs, "element assignment to something that is not a local slice variable")
 			return "?", true
 		}
